@@ -544,8 +544,8 @@ func (p *credProp) sequential(rc *RunCtx, sc *Scenario, cp *CredParams, info *Ru
 	info.Probes["crash_points"] += nmut
 	evals := 1
 	for k := 1; k <= nmut; k++ {
-		if cp.OnlyK != 0 && cp.OnlyK != k {
-			continue
+		if cp.OnlyK != 0 && k > cp.OnlyK {
+			break // see prop_crash.go: earlier points are re-executed to keep the tape aligned
 		}
 		dir := filepath.Join(rc.DiskDir, fmt.Sprintf("k%d", k))
 		resk, _, _, _, path := run(dir, k, false)
